@@ -7,7 +7,7 @@ set -e
 SCRATCH=${SCRATCH:-/tmp/jp-replay}
 HERE=$(cd "$(dirname "$0")" && pwd)
 rm -rf "$SCRATCH"; mkdir -p "$SCRATCH"
-rsync -a --exclude .git --exclude bin --exclude '*.a' --exclude tests /repo/ "$SCRATCH/src/"
+rsync -a --exclude .git --exclude bin --exclude "*.a" --exclude tests "${SRC:-/repo}/" "$SCRATCH/src/"
 build() { # build <name> <flags...>
   local out="$SCRATCH/$1"; shift; mkdir -p "$out"
   ( cd "$SCRATCH/src" && ls src/bls12_381/*.cpp src/wkdibe/*.cpp src/lqibe/*.cpp src/core/arch/x86_64/*.cpp |
